@@ -15,8 +15,13 @@
         i.e. not every interleaving of the model's call counts
      7  the scenario the harness ran (printed from its inputs) does not behave like the scenario the
         theorems of Props/C15.v are about, on this schedule
+     8  (groups with follow-ups, check_race_group_x) END TO END: after the race every code / callback id handed
+        out by the racing /authorize requests was redeemed / continued on the real provider; which of them
+        ended in a token response differs from the model (RaceStrict.e2e_outcomes)
+   check_race_group_x is check_race_group over a storage semantics (RaceStrict.sem_of: the lenient storage
+   of Prog.exec, or the STRICT one whose Delete of something absent is an error) plus the follow-ups.
      2^30  the option list does not build *)
-From Verif Require Import Base Scope Types Prog Pop Token Authorize System Config Race.
+From Verif Require Import Base Scope Types Prog Pop Token Authorize System Config Race RaceUri RaceStrict.
 Local Open Scope N_scope.
 
 Record raceobs := mkRaceObs {
@@ -72,5 +77,59 @@ Definition model_race (s : racescn) (k : N) (sched : list N) :=
   | Some su => let sc := map N.to_nat sched in
                Some (outcomes su (N.to_nat k) sc, logs_N (race_logs su (N.to_nat k) sc),
                      race_window_count su (N.to_nat k) sc, solo_log su)
+  | None => None
+  end.
+
+(* ---------------------------------------------------------------------------------- *)
+(* the same over a storage semantics (lenient / strict deletes), with the end-to-end follow-ups *)
+Record raceobsx := mkRaceObsX {
+  rx_sched : list N;
+  rx_ok : list bool;
+  rx_logs : list (list N);
+  rx_window : N;
+  rx_rev : bool;                   (* the follow-ups were made in reverse request order *)
+  rx_e2e : list bool               (* per racing request: its code / callback id ended in a token response *)
+}.
+Record racegroupx := mkRaceGroupX {
+  gx_named : racescn;
+  gx_scn : racescn;
+  gx_k : N;
+  gx_exhaustive : bool;
+  gx_strict : bool;                (* the storage reports an error for a Delete / DeleteByX of something absent *)
+  gx_follow : bool;                (* follow-ups were performed (racing /authorize requests) *)
+  gx_obs : list raceobsx
+}.
+
+Definition check_race_obs_x (ex : storage_sem) (follow : bool) (su named : racesetup) (k : nat) (o : raceobsx) : N :=
+  let sched := map N.to_nat (rx_sched o) in
+  let m_ok := outcomes_x ex su k sched in
+  let m_logs := logs_N (race_logs_x ex su k sched) in
+  if negb (live su) then 5
+  else if negb (Nat.eqb (count_true m_ok) (count_true (rx_ok o))) then 1
+  else if negb (list_eqb Bool.eqb m_ok (rx_ok o)) then 3
+  else if negb (list_eqb (list_eqb N.eqb) m_logs (rx_logs o)) then 2
+  else if negb (N.eqb (N.of_nat (race_window_count su k sched)) (rx_window o)) then 4
+  else if negb (andb (list_eqb Bool.eqb (outcomes_x ex named k sched) m_ok)
+                     (list_eqb (list_eqb N.eqb) (logs_N (race_logs_x ex named k sched)) m_logs)) then 7
+  else if andb follow (negb (list_eqb Bool.eqb (e2e_outcomes ex (rx_rev o) su k sched) (rx_e2e o))) then 8
+  else 0.
+
+Definition check_race_group_x (g : racegroupx) : list N :=
+  match setup (gx_scn g), setup (gx_named g) with
+  | Some su, Some named =>
+      let k := N.to_nat (gx_k g) in
+      let res := map (check_race_obs_x (sem_of (gx_strict g)) (gx_follow g) su named k) (gx_obs g) in
+      let scheds := map (fun o => map N.to_nat (rx_sched o)) (gx_obs g) in
+      if andb (gx_exhaustive g) (negb (list_eqb (list_eqb Nat.eqb) scheds (race_schedules su k)))
+      then match res with [] => [] | _ :: r => 6 :: r end
+      else res
+  | _, _ => map (fun _ => 2 ^ 30) (gx_obs g)
+  end.
+
+Definition model_race_x (strict : bool) (s : racescn) (k : N) (sched : list N) (rev_order : bool) :=
+  match setup s with
+  | Some su => let sc := map N.to_nat sched in let ex := sem_of strict in
+               Some (outcomes_x ex su (N.to_nat k) sc, logs_N (race_logs_x ex su (N.to_nat k) sc),
+                     race_window_count su (N.to_nat k) sc, e2e_outcomes ex rev_order su (N.to_nat k) sc)
   | None => None
   end.
